@@ -601,7 +601,7 @@ open CBV.C08 (Frame circAt) in
     satisfy `|L(a,c) − (L(a,b) + L(b,c))| ≤ r·(c − a)·h²/24`.  (100 samples of a range of at most 2π: `h ≤ 0.0635`, relative 1.7e-4 — the
     oracle's tolerance for analytic curves is 2e-3.) -/
 theorem T_C16_circle_additive_real {C e1 e2 : Vec ℝ} (hF : Frame e1 e2) {r : ℝ} (hr : 0 ≤ r) {h : ℝ} (hh : h ≤ 2)
-    (a b c : ℝ) (hab : a ≤ b) (hbc : b ≤ c) (l1 l2 l3 : List ℝ)
+    (a b c : ℝ) (l1 l2 l3 : List ℝ)
     (h1 : l1.head? = some a ∧ l1.getLast? = some b ∧ Steps h l1)
     (h2 : l2.head? = some b ∧ l2.getLast? = some c ∧ Steps h l2)
     (h3 : l3.head? = some a ∧ l3.getLast? = some c ∧ Steps h l3) :
@@ -647,6 +647,23 @@ theorem T_C16_linspace_steps (a b : Rat) (hab : a ≤ b) (N : Nat) (hN : 1 ≤ N
   · intro i
     push_cast
     constructor <;> nlinarith
+
+open CBV.C08 (Frame circAt) in
+/-- … so the polyline that `AnalyticCurve.get_length` sums for a `CircleCurve` — the model's `linspace` with `N + 1` samples, read in ℝ —
+    lies between `arc·(1 − ((b − a)/N)²/24)` and `arc = r·(b − a)`, for every sample count with `(b − a)/N ≤ 2`; with the
+    100 samples of the source (`N = 99`) and a range of at most 2π the relative deficit is below `(2π/99)²/24 < 1.7e-4`. -/
+theorem T_C16_circle_get_length_real {C e1 e2 : Vec ℝ} (hF : Frame e1 e2) {r : ℝ} (hr : 0 ≤ r) (a b : Rat) (hab : a ≤ b)
+    (N : Nat) (hN : 1 ≤ N) (hstep : ((b : ℝ) - a) / N ≤ 2) :
+    r * ((b : ℝ) - a) * (1 - (((b : ℝ) - a) / N) * (((b : ℝ) - a) / N) / 24)
+      ≤ polyLenR distR (((linspace a b (N + 1)).map (fun t : Rat => (t : ℝ))).map (circAt C e1 e2 r)) ∧
+    polyLenR distR (((linspace a b (N + 1)).map (fun t : Rat => (t : ℝ))).map (circAt C e1 e2 r)) ≤ r * ((b : ℝ) - a) := by
+  apply T_C16_circle_resampling_real hF hr hstep _ _ _ _ _ (T_C16_linspace_steps a b hab N hN)
+  · rw [linspace_eq]
+    obtain ⟨n, rfl⟩ : ∃ n, N = n + 1 := ⟨N - 1, by omega⟩
+    simp [List.range_succ_eq_map, sample]
+  · rw [linspace_eq]; simp
+
+example : ((2 : ℝ) * 3.15 / 99) * (2 * 3.15 / 99) / 24 < 1.7e-4 := by norm_num
 
 /-! ### round 6: tie to the source text (tables regenerated by `cbv/tables/c16.py` with `ast` on every run) -/
 
